@@ -10,6 +10,7 @@ import GIV.Lemmas.ParWorkRun
 import GIV.Lemmas.ParWorkDeadlock
 import GIV.Lemmas.ParWorkMeasure
 import GIV.Lemmas.ParWorkWake
+import GIV.Lemmas.ParWorkFinal
 namespace GIV.C09
 open GIV.ParWork
 
@@ -262,5 +263,323 @@ theorem no_lost_wakeup_mutex_free (c : Cfg) (hn : 1 ≤ c.n) (s : State) (h : Re
 example : ∃ s, Reach exCfg3 s ∧
     (decide (2 ∈ s.waiters ∧ s.owner = none ∧ s.todo = [1] ∧ s.woken = [1])) = true :=
   reach_of_run exCfg3 (exWakeTrace ++ [(0, .signal (some 1)), (0, .unlock)]) _ (by decide)
+
+/-! ### the outcome does not depend on the schedule -/
+
+/-- the complete example run ends in a final state (every task exited) with `calls = [0, 1]` -/
+theorem exFinal : ∃ s, Reach exCfg s ∧ final s ∧ s.calls = [0, 1] := by
+  obtain ⟨s, hr, hP⟩ := reach_of_run exCfg exTrace
+    (fun s => decide (s.pc 0 = .exited ∧ s.pc 1 = .exited ∧ s.calls = [0, 1])) (by decide)
+  obtain ⟨h0, h1, hc⟩ := of_decide_eq_true hP
+  refine ⟨s, hr, ?_, hc⟩
+  intro (t : Nat)
+  by_cases ht : t < 2
+  · have : t = 0 ∨ t = 1 := by omega
+    rcases this with e | e <;> subst e
+    · exact Or.inl h0
+    · exact Or.inl h1
+  · right
+    apply Classical.byContradiction
+    intro hne
+    exact ht ((inv_reach (c := exCfg) (by decide) hr).bound t hne)
+
+/-- In every reachable state (any n ≥ 1, any item graph, any schedule) f has only been called on — and only
+items have been added that are — items of the scenario: members of the least set `IsItem c` that contains the
+initial items and is closed under `children` (what f adds); hence members of every closed `U`. -/
+theorem called_only_items (c : Cfg) (hn : 1 ≤ c.n) (s : State) (h : Reach c s) :
+    (∀ x, x ∈ s.calls → IsItem c x) ∧ (∀ x, x ∈ s.added → IsItem c x) ∧
+    (∀ U, Closed c U → ∀ x, x ∈ s.calls → x ∈ U) := by
+  have f := invF_reach hn h
+  exact ⟨called_isItem f, added_isItem f, fun U cl x hx => (called_isItem f x hx).mem_closed cl⟩
+
+example : ∃ s, Reach exCfg s ∧ (decide (s.calls = [0, 1] ∧ s.added = [1, 0])) = true :=
+  reach_of_run exCfg exTrace _ (by decide)
+
+/-- Schedule independence of the outcome.  For every n ≥ 1, every item graph and every reachable FINAL
+state (all tasks have exited), whatever the interleaving, the choices of `rand.Intn` and the spurious
+wake-ups were: the log of f-calls is duplicate free, and f was called on EXACTLY the items of the scenario —
+every call is in every set `U` that contains the initial items and is closed under `children`, and every
+element of the least such set `IsItem c` was called. -/
+theorem final_calls_exactly_closure (c : Cfg) (hn : 1 ≤ c.n) (s : State) (h : Reach c s) (hf : final s) :
+    s.calls.Nodup ∧ (∀ x, x ∈ s.calls ↔ IsItem c x) ∧ (∀ U, Closed c U → ∀ x, x ∈ s.calls → x ∈ U) := by
+  have f := invF_reach hn h
+  have inv := inv_reach hn h
+  exact ⟨once c hn s h, fun x => ⟨called_isItem f x, final_isItem_called inv f hf x⟩,
+    (called_only_items c hn s h).2.2⟩
+
+example : ∃ s, Reach exCfg s ∧ final s ∧ s.calls = [0, 1] := exFinal
+
+/-- the least closed set of the example scenario is {0, 1} -/
+example : ∀ x, IsItem exCfg x ↔ x = 0 ∨ x = 1 := by
+  intro x
+  constructor
+  · intro h
+    have := h.mem_closed (U := [0, 1]) ⟨by decide, by
+      intro x hx y hy
+      simp only [exCfg] at hy
+      split at hy <;> simp_all⟩
+    simpa using this
+  · intro h
+    have h0 : IsItem exCfg 0 := .init (by decide)
+    rcases h with e | e <;> subst e
+    · exact h0
+    · exact .child h0 (by decide)
+
+/-- Two complete runs of the same scenario call f on the same items the same number of times (once):
+the logs of f-calls of any two reachable final states are permutations of each other — the order depends on
+the schedule, the multiset does not. -/
+theorem final_calls_perm (c : Cfg) (hn : 1 ≤ c.n) (s₁ s₂ : State) (h₁ : Reach c s₁) (h₂ : Reach c s₂)
+    (hf₁ : final s₁) (hf₂ : final s₂) : s₁.calls.Perm s₂.calls := by
+  obtain ⟨d₁, m₁, _⟩ := final_calls_exactly_closure c hn s₁ h₁ hf₁
+  obtain ⟨d₂, m₂, _⟩ := final_calls_exactly_closure c hn s₂ h₂ hf₂
+  exact (List.perm_ext_iff_of_nodup d₁ d₂).mpr (fun x => (m₁ x).trans (m₂ x).symm)
+
+example : ∃ s₁ s₂, Reach exCfg s₁ ∧ Reach exCfg s₂ ∧ final s₁ ∧ final s₂ := by
+  obtain ⟨s, hr, hf, _⟩ := exFinal
+  exact ⟨s, s, hr, hr, hf, hf⟩
+
+/-! ### causality -/
+
+/-- An item is only processed because someone added it: in every reachable state, every call in the log of
+f-calls is a call on an initial item, or on a child of an item on which f had been entered EARLIER in the log
+(its parent's call of f had started before). -/
+theorem calls_prefix_closed (c : Cfg) (hn : 1 ≤ c.n) (s : State) (h : Reach c s)
+    (l₁ : List Nat) (x : Nat) (l₂ : List Nat) (hc : s.calls = l₁ ++ x :: l₂) :
+    x ∈ c.init ∨ ∃ p, p ∈ l₁ ∧ x ∈ c.children p :=
+  (invF_reach hn h).causal l₁ x l₂ hc
+
+example : ∃ s, Reach exCfg s ∧ (decide (s.calls = [0] ++ 1 :: [])) = true :=
+  reach_of_run exCfg exTrace _ (by decide)
+
+/-- The same for everything that was ever added (so also for what is queued or picked): an added item is an
+initial one or a child of an item on which f has been entered; and a task is inside `f x` only after `x` was
+logged as called. -/
+theorem added_has_cause (c : Cfg) (hn : 1 ≤ c.n) (s : State) (h : Reach c s) :
+    (∀ x, x ∈ s.added → x ∈ c.init ∨ ∃ p, p ∈ s.calls ∧ x ∈ c.children p) ∧
+    (∀ t x, (s.pc t).parent = some x → x ∈ s.calls) :=
+  ⟨(invF_reach hn h).addedWhy, (invF_reach hn h).parentCalled⟩
+
+example : ∃ s, Reach exCfg s ∧ (decide (1 ∈ s.added ∧ 0 ∈ s.calls ∧ (s.pc 0).parent = some 0)) = true :=
+  reach_of_run exCfg (exTrace.take 11) _ (by decide)
+
+/-! ### the logs only grow -/
+
+/-- Along any step `added` only grows at its head by at most one new item (the old list is a suffix of the
+new one), and only by an `Add` (the `lock` event of a task whose next operation is `Add(x)`) of an item that
+was not there. -/
+theorem added_monotone (c : Cfg) (s s' : State) (t : Nat) (e : Event) (hs : step c s t e = some s') :
+    s.added <:+ s'.added ∧
+    (s'.added = s.added ∨ ∃ p k x, s.pc t = p ∧ AddCall c p k x ∧ e = .lock ∧ x ∉ s.added ∧ s'.added = x :: s.added) := by
+  have h := step_sound hs
+  have hl : s'.added ≠ s.added → e = .lock := by
+    intro hne
+    cases h <;> first | rfl | exact absurd rfl hne | exact absurd (loopHead_added _ _) hne
+  rcases step_added h with h1 | ⟨p, k, x, h1, h2, h3, h4⟩
+  · exact ⟨h1 ▸ List.suffix_refl _, Or.inl h1⟩
+  · exact ⟨h4 ▸ List.suffix_cons _ _, Or.inr ⟨p, k, x, h1, h2, hl (by rw [h4]; simp), h3, h4⟩⟩
+
+example : ∃ s, Reach exCfg s ∧ (decide (s.added = [0] ∧ (step exCfg s 0 .lock).isSome)) = true :=
+  reach_of_run exCfg (exTrace.take 9) _ (by decide)
+
+/-- Along any step the log of f-calls only grows at its end by at most one call (the old log is a prefix of the
+new one), and only by the `f-enter` event of the task that picked the item. -/
+theorem calls_monotone (c : Cfg) (s s' : State) (t : Nat) (e : Event) (hs : step c s t e = some s') :
+    s.calls <+: s'.calls ∧
+    (s'.calls = s.calls ∨ ∃ x, s.pc t = .fEnter x ∧ e = .fEnter x ∧ s'.calls = s.calls ++ [x]) := by
+  rcases step_calls (step_sound hs) with h1 | ⟨x, h1, h2, h3⟩
+  · exact ⟨h1 ▸ List.prefix_refl _, Or.inl h1⟩
+  · exact ⟨h3 ▸ List.prefix_append _ _, Or.inr ⟨x, h1, h2, h3⟩⟩
+
+example : ∃ s, Reach exCfg s ∧ (decide (s.calls = [0] ∧ (step exCfg s 0 (.fEnter 1)).isSome)) = true :=
+  reach_of_run exCfg (exTrace.take 16) _ (by decide)
+
+/-- What is queued was added (and so was what a runner has picked and not started yet). -/
+theorem todo_subset_added (c : Cfg) (hn : 1 ≤ c.n) (s : State) (h : Reach c s) :
+    (∀ x, x ∈ s.todo → x ∈ s.added) ∧ (∀ t x, (s.pc t).holds x = true → x ∈ s.added) :=
+  ⟨todo_sub_added (inv_reach hn h), fun _ _ hx => holds_added (inv_reach hn h) hx⟩
+
+example : ∃ s, Reach exCfg s ∧ (decide (s.todo = [1] ∧ s.added = [1, 0])) = true :=
+  reach_of_run exCfg (exTrace.take 11) _ (by decide)
+
+/-! ### Add -/
+
+/-- the scenario `Do(1, f)` after `Add(0)`, where `f 0` calls `Add(0)` again -/
+def exCfgDup : Cfg := { n := 1, init := [0], children := fun x => if x = 0 then [0] else [] }
+
+/-- Duplicate adds are ignored.  When a task whose next operation is `Add(x)` (main before `Do`, or inside f)
+acquires the mutex and `x` was added before, the successor state is the old state with the mutex held by `t`
+and `t` at Add's `Unlock()`: nothing is queued, `added` and the log of calls are unchanged, `Signal()` is
+skipped (the wait set and the woken set are unchanged, `t` is not at `addSignal`). -/
+theorem duplicate_add_ignored (c : Cfg) (s s' : State) (t : Nat) (p : Pc) (k : Cont) (x : Item)
+    (hp : s.pc t = p) (hcall : AddCall c p k x) (hs : step c s t .lock = some s') (hx : x ∈ s.added) :
+    s' = ({ s with owner := some t } : State).setPc t (.addUnlock k) ∧
+    s'.todo = s.todo ∧ s'.added = s.added ∧ s'.calls = s.calls ∧ s'.waiters = s.waiters ∧ s'.woken = s.woken ∧
+    s'.waiting = s.waiting ∧ s'.pc t = .addUnlock k := by
+  obtain ⟨_, rfl⟩ := step_add hs hp hcall
+  have e : addBody { s with owner := some t } t k x = ({ s with owner := some t } : State).setPc t (.addUnlock k) := by
+    rw [addBody_eq, if_pos hx]
+  rw [e]
+  exact ⟨rfl, rfl, rfl, rfl, rfl, rfl, rfl, by simp [State.setPc, upd]⟩
+
+/-- `f 0` is about to `Add(0)`, which was added before `Do`: the step is enabled -/
+example : AddCall exCfgDup (.inF 0 0) (.inF 0 0) 0 ∧ ∃ s, Reach exCfgDup s ∧
+    (decide (s.pc 0 = .inF 0 0 ∧ 0 ∈ s.added ∧ (step exCfgDup s 0 .lock).isSome)) = true :=
+  ⟨.inF rfl, reach_of_run exCfgDup
+    [(0, .start), (0, .lock), (0, .unlock), (0, .doCall 1), (0, .lock), (0, .rand 1 0), (0, .unlock), (0, .fEnter 0)] _ (by decide)⟩
+
+/-- The other case: an `Add(x)` of an item that was not added before puts `x` at the head of `added` and at the
+end of the queue, leaves the log of calls alone, and is enabled exactly when the mutex is free. -/
+theorem new_add_appends (c : Cfg) (s : State) (t : Nat) (p : Pc) (k : Cont) (x : Item)
+    (hp : s.pc t = p) (hcall : AddCall c p k x) :
+    ((∃ s', step c s t .lock = some s') ↔ s.owner = none) ∧
+    (∀ s', step c s t .lock = some s' → x ∉ s.added →
+      s'.added = x :: s.added ∧ s'.todo = s.todo ++ [x] ∧ s'.calls = s.calls) := by
+  constructor
+  · constructor
+    · intro ⟨s', hs⟩; exact (step_add hs hp hcall).1
+    · intro ho; exact ⟨_, step_add_enabled hp hcall ho⟩
+  · intro s' hs hx
+    obtain ⟨_, rfl⟩ := step_add hs hp hcall
+    rw [addBody_added, addBody_todo, addBody_calls]
+    simp [hx]
+
+example : AddCall exCfg (.inF 0 0) (.inF 0 0) 1 ∧ ∃ s, Reach exCfg s ∧
+    (decide (s.pc 0 = .inF 0 0 ∧ 1 ∉ s.added ∧ s.owner = none)) = true :=
+  ⟨.inF rfl, reach_of_run exCfg (exTrace.take 9) _ (by decide)⟩
+
+/-! ### when a runner returns -/
+
+/-- Exactly when a runner decides to return.  Runner `t` evaluates the test
+`len(w.todo) == 0 … w.waiting == w.running` when it has acquired the mutex at the top of its loop (`lockTop`,
+event `lock`) or re-acquired it inside `Wait()` (`wake`, event `wake`).  In every reachable state the test
+succeeds (`t` goes on to the final `Broadcast()`, `Unlock()` and `return`) IF AND ONLY IF nothing is queued and
+every other runner `i < n` is counted in `w.waiting` (`Pc.inW`: it is about to call `Wait()`, is inside
+`Wait()`, or has itself seen all done) — in particular no call of f is in progress or about to start;
+otherwise `t` goes to `Wait()` (queue empty) or picks an item. -/
+theorem returns_iff_all_done (c : Cfg) (hn : 1 ≤ c.n) (s s' : State) (h : Reach c s) (t : Nat) (e : Event)
+    (hp : s.pc t = .lockTop ∨ s.pc t = .wake) (he : e ≠ .spurious) (hs : step c s t e = some s') :
+    (s'.pc t = .bcast ↔ s.todo = [] ∧ ∀ i, i < c.n → i ≠ t → (s.pc i).inW = true) ∧
+    (s'.pc t ≠ .bcast → (s'.pc t = .wait ∧ s.todo = []) ∨ (s'.pc t = .rand ∧ s.todo ≠ [])) := by
+  have inv := inv_reach hn h
+  have key : ∀ s1 : State, s1.todo = s.todo → s1.waiting + (if (s.pc t).inW then 1 else 0) = s.waiting →
+      s1.running = s.running → s' = loopHead s1 t →
+      (s'.pc t = .bcast ↔ s.todo = [] ∧ ∀ i, i < c.n → i ≠ t → (s.pc i).inW = true) ∧
+      (s'.pc t ≠ .bcast → (s'.pc t = .wait ∧ s.todo = []) ∨ (s'.pc t = .rand ∧ s.todo ≠ [])) := by
+    intro s1 h2 h3 h4 hs'
+    have hpc : s'.pc t = loopPc s1 := by rw [hs', loopHead_pc]; simp [upd]
+    rw [hpc]
+    refine ⟨allDone_iff inv hp h2 h3 h4, ?_⟩
+    unfold loopPc; rw [h2]
+    split <;> (try split) <;> simp_all
+  have hstep := step_sound hs
+  rcases hp with hp | hp
+  · cases hstep with
+    | lockTop hpc ho => exact key { s with owner := some t } rfl (by simp [hpc, Pc.inW]) rfl rfl
+    | addLock hpc hcall ho => rw [hp] at hpc; subst hpc; cases hcall
+    | _ => simp_all
+  · cases hstep with
+    | wake hpc hw ho =>
+      exact key { s with owner := some t, woken := s.woken.erase t, waiting := s.waiting - 1 } rfl
+        (by simp [hpc, Pc.inW]) rfl rfl
+    | spurious hpc hw => exact absurd rfl he
+    | addLock hpc hcall ho => rw [hp] at hpc; subst hpc; cases hcall
+    | _ => simp_all
+
+/-- runner 0 is at the top of its loop, nothing is queued, runner 1 is inside `Wait()`: the `lock` step is
+enabled and leads to the final `Broadcast()` -/
+example : ∃ s, Reach exCfg s ∧
+    (decide (s.pc 0 = .lockTop ∧ s.todo = [] ∧ (s.pc 1).inW = true ∧
+      (step exCfg s 0 .lock).map (fun s' => s'.pc 0) = some .bcast)) = true :=
+  reach_of_run exCfg (exTrace.take 20) _ (by decide)
+
+/-- The converse direction as an enabledness statement: if runner `t` is at the top of its loop, nothing is
+queued and every other runner is parked inside `Wait()`, then `t`'s `lock` step IS enabled and takes the
+return path; and `Do`'s own `do-return` event is enabled exactly when task 0 has returned from its runner loop
+— at which point nothing remains to do (`do_returns_late`). -/
+theorem return_enabled (c : Cfg) (hn : 1 ≤ c.n) (s : State) (h : Reach c s) :
+    (∀ t, s.pc t = .lockTop → s.todo = [] → (∀ i, i < c.n → i ≠ t → s.pc i = .wake) →
+      ∃ s', step c s t .lock = some s' ∧ s'.pc t = .bcast) ∧
+    ((∃ s', step c s 0 .doReturn = some s') ↔ s.pc 0 = .returned) := by
+  have inv := inv_reach hn h
+  have l := invL_reach hn h
+  constructor
+  · intro t hp htodo hall
+    have ho : s.owner = none := by
+      cases hown : s.owner with
+      | none => rfl
+      | some u =>
+        exfalso
+        have hh := l.own_holder u hown
+        by_cases hut : u = t
+        · subst hut; rw [hp] at hh; simp [Pc.holder] at hh
+        · have hu : u < c.n := inv.bound u (by intro e; rw [e] at hh; simp [Pc.holder] at hh)
+          rw [hall u hu hut] at hh; simp [Pc.holder] at hh
+    have hs : step c s t .lock = some (loopHead { s with owner := some t } t) := by
+      simp [step, shapeOK_true, hp, lockStep, ho]
+    refine ⟨_, hs, ?_⟩
+    exact ((returns_iff_all_done c hn s _ h t .lock (Or.inl hp) (by simp) hs).1).mpr
+      ⟨htodo, fun i hi hit => by rw [hall i hi hit]; rfl⟩
+  · constructor
+    · intro ⟨s', hs⟩
+      have := step_sound hs
+      cases this with
+      | doReturn hpc _ => exact hpc
+    · intro hp
+      exact ⟨s.setPc 0 .retd, by simp [step, shapeOK_true, hp]⟩
+
+example : ∃ s, Reach exCfg s ∧ (decide (s.pc 0 = .lockTop ∧ s.todo = [] ∧ s.pc 1 = .wake)) = true :=
+  reach_of_run exCfg (exTrace.take 20) _ (by decide)
+
+example : ∃ s, Reach exCfg s ∧ (decide (s.pc 0 = .returned ∧ (step exCfg s 0 .doReturn).isSome)) = true :=
+  reach_of_run exCfg (exTrace.take 23) _ (by decide)
+
+/-- Hence along ANY finite execution σ 0 → σ 1 → … → σ m (from any state): what was added / called at
+time i is still there, in the same order, at every later time j. -/
+theorem logs_monotone_trace (c : Cfg) (m : Nat) (σ : Nat → State) (τ : Nat → Nat × Event)
+    (hstep : ∀ i, i < m → step c (σ i) (τ i).1 (τ i).2 = some (σ (i + 1))) (i j : Nat) (hij : i ≤ j) (hjm : j ≤ m) :
+    (σ i).added <:+ (σ j).added ∧ (σ i).calls <+: (σ j).calls := by
+  induction j with
+  | zero =>
+    have : i = 0 := by omega
+    subst this; exact ⟨List.suffix_refl _, List.prefix_refl _⟩
+  | succ j ih =>
+    by_cases e : i = j + 1
+    · subst e; exact ⟨List.suffix_refl _, List.prefix_refl _⟩
+    · obtain ⟨a, b⟩ := ih (by omega) (by omega)
+      have hs := hstep j (by omega)
+      exact ⟨a.trans (added_monotone c _ _ _ _ hs).1, b.trans (calls_monotone c _ _ _ _ hs).1⟩
+
+/-- a two-step execution of the example scenario exists (`start`, then the `lock` of `Add(0)`) and adds item 0 -/
+example : (runFrom exCfg init0 [(0, .start), (0, .lock)]).map (fun s => decide (s.added = [0])) = some true := by
+  decide
+
+/-! ### calls in progress versus items -/
+
+/-- The number of calls of f in progress (counted over any number of task slots) is not only at most n
+(`at_most_n`) but also at most the number of calls started, and together with the queued items and the items
+picked by a runner that has not entered f yet (`Pc.holdsSome`) at most the number of items added: every
+added item is in exactly one of the places queued / picked / called (`calls` = in progress + finished).  So with
+fewer items than workers at most that many workers are ever inside f; the surplus workers are idle. -/
+theorem in_progress_le_min (c : Cfg) (hn : 1 ≤ c.n) (s : State) (h : Reach c s) (N : Nat) :
+    cnt Pc.insideF s.pc N ≤ min c.n s.calls.length ∧
+    s.todo.length + cnt Pc.holdsSome s.pc c.n + s.calls.length = s.added.length ∧
+    cnt Pc.insideF s.pc N + s.todo.length + cnt Pc.holdsSome s.pc c.n ≤ s.added.length := by
+  have inv := inv_reach hn h
+  have e := invE_reach hn h
+  have h1 : cnt Pc.insideF s.pc N ≤ cnt Pc.insideF s.pc c.n := by
+    apply cnt_beyond
+    intro i hi
+    cases hp : s.pc i with
+    | absent => rfl
+    | _ => exact absurd (inv.bound i (by rw [hp]; simp)) (by omega)
+  have h2 := e.inProg
+  have h3 := e.bal
+  have h4 := at_most_n c hn s h N
+  exact ⟨by omega, h3, by omega⟩
+
+/-- two workers, one item added so far and its call in progress: exactly one worker is inside f -/
+example : ∃ s, Reach exCfg s ∧
+    (decide (cnt Pc.insideF s.pc 5 = 1 ∧ s.calls.length = 1 ∧ s.added.length = 1 ∧ s.todo = [])) = true :=
+  reach_of_run exCfg (exTrace.take 9) _ (by decide)
 
 end GIV.C09
